@@ -196,6 +196,31 @@ fn run(ctx: &mut Ctx, a: &ANode, rng: &mut Rng, forced_target: Option<usize>) {
         return;
     }
     ctx.count("after_state_equal_to_prediction");
+    // the call works on the tree, not on the library's settings: text appended afterwards is merged (or kept apart)
+    // exactly as the caller had it configured before
+    {
+        let probe = guard(|| {
+            let n = xot.add_name("zz-probe");
+            let e = xot.new_element(n);
+            let _ = xot.append_text(e, "a");
+            let _ = xot.append_text(e, "b");
+            let k = xot.children(e).count();
+            let _ = xot.remove(e);
+            k
+        });
+        let want = if consolidation { 1 } else { 2 };
+        match probe {
+            Ok(k) if k == want => ctx.count("consolidation_setting_intact"),
+            other => {
+                ctx.violation(
+                    "after the call, appended text is no longer merged / kept apart the way the caller had configured it",
+                    "C18/text-consolidation-setting-changed".to_string(),
+                    J::obj().set("tree", a.to_json()).set("target", J::s(target_desc.clone())).set("consolidation_on_before", J::Bool(consolidation)).set("text_nodes_after_two_appends", J::s(format!("{:?}", other.map_err(|p| p.short())))),
+                );
+                return;
+            }
+        }
+    }
     if gone.contains(&target) {
         return;
     }
